@@ -20,7 +20,7 @@ RULE = ('sources: (a) LUAGEN programs of the dialect in random layouts (comments
         ' A quarter of the parseable sources (no CR, no header-like or include-like line) also go through `p8tool writep8` on a .p8 file written by the reference writer; the output cart is read by the reference reader (own P8SCII table) and judged the same way.'
         ' After the chunkings, the default writer is run once more on a Lua object on which another writer (PureLuaWriter, LuaMinifyTokenWriter, LuaFormatterWriter, LuaASTEchoWriter) has just produced output: it must still echo the source. Part "starts" puts every representative atom (incl. glyph names equal to Unicode byte-order marks) first and last in a source.')
 ASSUMPTIONS = ['lexical rules are represented by vlib/reflex.py; sources it rejects are out of domain (counted)',
-               'levelled long comments --[=[ ]=] are not asserted (see C07)']
+               'how levelled long comments --[=[ ]=] and spaced labels tokenise is not asserted here (known findings of C07); the echo clause still applies to them']
 LEVEL_TEXT = ('Exploration: generated programs and adversarial string literals echoed through the default writer and '
               'judged by an independent lexer (byte identity outside strings, equal denotation inside).')
 LEVEL_NOTE = 'Trusted: vlib/reflex.py.'
@@ -90,6 +90,10 @@ def compare(src, out, case, how):
                             % (how, k, a.kind, show(a.text, 40), b.kind, show(b.text, 40), show(src, 120)),
                             case, 'kind')
         if a.kind == 'string':
+            if a.text[:1] == b'[' and a.text != b.text:
+                # a long-bracket literal is not re-spelled by any writer: it comes back byte for byte (its line ends too)
+                raise Violation('echo (%s) changed the bytes of the long string %s into %s -- source %s'
+                                % (how, show(a.text, 50), show(b.text, 50), show(src, 120)), case, 'bytes-long-string')
             if a.value != b.value:
                 raise Violation('echo (%s) changed string literal %s (value %s) into %s (value %s)'
                                 % (how, show(a.text, 50), show(a.value, 40), show(b.text, 50), show(b.value, 40)),
@@ -112,7 +116,9 @@ def check_source(src, case=None, ch=None, avoid=(), stats=None):
         if stats is not None:
             stats.exclude('not_lexable_by_reference')
         return None
-    why = c07.out_of_domain(src, ref, avoid)
+    # (how levelled long comments and spaced labels tokenise is C07's business - known findings there; here only the
+    # echo clause below is applied to them)
+    why = c07.out_of_domain(src, ref, set(avoid) | set(c07.KNOWN_TAGS))
     if why == 'long_comment_level':
         # How such text tokenises is not asserted (C07), but the echo clause does not depend on it: whatever the
         # tokens are, unchanged code must come back byte for byte outside string literals.  If the comment body
